@@ -21,6 +21,8 @@ open NA.Sess NA.Apply
 
 /-- What a compare run may send, by backend (vocabulary of the session model: the PAN-OS / NSX
 requests are named as `harness/c09` and `harness/c11` canonicalise them). -/
+-- `policy` = `GET …/gateway-policies/<id>`, the rules of one Netspoc gateway policy (a read; the
+-- session model has it in the part of `LoadDevice` that its assumptions make unreachable)
 def allowedLines : Backend → List String
   | .asa => ["yes", "<secret>", "enable", "", "sh pager", "terminal pager 0", "sh term",
              "configure terminal", "terminal width 511", "end",
@@ -29,7 +31,7 @@ def allowedLines : Backend → List String
   | .linux => ["yes", "<secret>", "PS1=router#", "uname -r", "uname -m", "hostname -s",
                "grep 'NetSPoC' /etc/issue", "iptables-save", "ip route show"]
   | .panos => ["keygen", "show ha", "get config"]
-  | .nsx => ["session create", "gateway-policies", "services", "groups"]
+  | .nsx => ["session create", "gateway-policies", "policy", "services", "groups"]
 
 /-- configuration-mode lines: only ASA has any, and only the terminal-width block -/
 def configModeLines : Backend → List String
